@@ -418,6 +418,11 @@ class _Inliner:
         init = ast.Assign(targets=[ast.Name(id=retvar, ctx=ast.Store())], value=ast.Constant(value=None), lineno=call.lineno, col_offset=0)
         block.body = [init] + binds + (new_body or [ast.Pass(lineno=call.lineno, col_offset=0)])
         ast.fix_missing_locations(block)
+        # every instantiation is its own set of call sites: the copies keep the helper's line numbers (reports point there)
+        # but get a column offset of their own, so that two inlined copies of one helper are told apart
+        for x in ast.walk(block):
+            if hasattr(x, "col_offset") and isinstance(getattr(x, "col_offset"), int):
+                x.col_offset = x.col_offset + 1000 * k
         return block, retvar
 
     # ---- statements
